@@ -250,8 +250,11 @@ class GroupedType(BaseDataType):
                                 "of 'list' with DiameterAVP objects")
 
         if self.mandatory:
-            mandatory_avps_codes = [avp.code for avp in self.mandatory.values()]
-            data_avp_codes = [avp.code for avp in self.avps]
+            #: An AVP is identified by its Vendor-ID and its code together:
+            #: the same code under another vendor is another AVP.
+            mandatory_avps_codes = [(avp.vendor_id, avp.code)
+                                    for avp in self.mandatory.values()]
+            data_avp_codes = [(avp.vendor_id, avp.code) for avp in self.avps]
             
             if not set(mandatory_avps_codes).issubset(data_avp_codes):
                 raise AVPAttributeValueError("missing mandatory avp", 
